@@ -146,6 +146,26 @@ def targeted_sweep(d, pre):
                 if hit: break
             if hit: break
         if hit: break
+    if hit is None and not pre:
+        # density family: the instructions with the largest *measured* code size, repeated N = 1..320 times (a buffer sized from the instruction
+        # count rather than from the emitted bytes overflows on the densest programs, far from any page boundary of the filler programs above)
+        heavy = [insn(0x3f, 6, 7), insn(0x9f, 6, 7), insn(0x3c, 4, 5), insn(0x9c, 8, 9), insn(0x2f, 6, 7), insn(0x37, 6, 0, 0, 3), insn(0x97, 7, 0, 0, 3),
+                 insn(0x85, 0, 1, 0, 0), lddw(9, 0x1122334455667788), insn(0x7a, 10, 0, -8, 0x12345678), insn(0xdb, 10, 9, -8), insn(0xdc, 9, 0, 0, 64),
+                 insn(0x6f, 8, 9), insn(0xcf, 8, 9), insn(0x7b, 10, 9, -200), insn(0x79, 9, 10, -200), insn(0x2d, 8, 9, 0), insn(0x85, 0, 0, 0, 1)]
+        vm = 'mbuff'; r0 = comp(vm, EX); tried += 1; meas = []
+        for h in heavy:
+            if not ref.wf(h + EX)[0]: continue
+            r = comp(vm, h + EX); tried += 1
+            if r.get('status') not in ('ok', 'err'): hit = (vm, h + EX, r); break
+            if r.get('status') == 'ok' and r0.get('status') == 'ok': meas.append((r['code_len'] - r0['code_len'], h))
+        meas.sort(key=lambda x: -x[0])
+        for sz, h in meas[:4]:
+            if hit: break
+            for N in range(2, 321):
+                prog = h * N + EX
+                if not ref.wf(prog)[0]: break
+                r = comp(vm, prog); tried += 1
+                if r.get('status') not in ('ok', 'err'): hit = (vm, prog, r); break
     _SWEEPS[key] = (hit, tried)
     return hit, tried
 
@@ -172,7 +192,7 @@ def replay_c12(c):
             c['replay'] = dict(vm=vm, prog=prog.hex() if len(prog) < 4000 else f'{pre.hex()} + filler ({len(prog)//8} instructions)', result=r)
             c['detail'] = (c.get('detail') or '') + f' -- native: jit_compile of an accepted {len(prog)//8}-instruction program on the {vm} VM: {r.get("status")} {str(r.get("msg", ""))[:160]}'
             return True, f'targeted native sweep reproduced ({total} compilations)'
-    return False, f'targeted native sweep of {total} compilations (code sizes within 40 bytes of two page boundaries, four VM kinds) shows no panic'
+    return False, f'targeted native sweep of {total} compilations (code sizes within 40 bytes of two page boundaries, four VM kinds) and of the densest programs (the four largest-emitting instructions repeated 2..320 times) shows no panic'
 
 
 def replay(path):
